@@ -399,6 +399,54 @@ func DrawHistory(r *Rng, cfg HistConfig) (*Scenario, *histWorld) {
 			again := *mid
 			again.Fresh = false
 			ops = append(ops, Op{Kind: "touch", K: pi, Path: f, SameSize: true}, Op{Kind: "run", Run: mid}, Op{Kind: "run", Run: &again}, Op{Kind: "touch", K: pi, Path: f, SameSize: true, MTime: "keep"})
+		case r.P(cfg.PReuse/3) && len(m.Pkgs) >= 2 && faulty < 2:
+			// a retry on the same executor after a failure half-way: the files are there (run 0); in the first
+			// call a generator has nothing to say for package A (its file is stale) and fails in package B,
+			// which comes later; in the second call, on the same executor, it renders for A again and succeeds
+			var main []int
+			for pi, p := range m.Pkgs {
+				if !p.InSub {
+					main = append(main, pi)
+				}
+			}
+			var gi []int
+			for k, g := range w.gens {
+				if isScripted(&g) {
+					gi = append(gi, k)
+				}
+			}
+			if len(main) < 2 || len(gi) == 0 {
+				break
+			}
+			perm := r.Perm(len(main))
+			pa, pb := main[perm[0]], main[perm[1]]
+			if m.ImportPath(pa) > m.ImportPath(pb) {
+				pa, pb = pb, pa
+			}
+			g := Pick(r, gi)
+			run0 := w.drawRun(r, cfg)
+			run0.HasFirstGlobals, run0.FirstGlobals, run0.FirstGens, run0.Cwd = false, nil, nil, ""
+			run0.Gens = w.gens
+			run0.Args.Entrypoint = spell(r, m, []int{pa, pb})
+			run0.Args.Force = run0.Args.All
+			run1 := *run0
+			run1.Fresh, run1.KeepExecutor = true, true
+			gens1 := append([]proto.GenScript{}, w.gens...)
+			muted := muteGen(r, m, gens1[g], pa)
+			for k, rule := range muted.Rules {
+				if rule.Ret != "" {
+					rule.Ret = ""
+					muted.Rules[k] = rule
+				}
+			}
+			gens1[g] = muted
+			run1.Gens = gens1
+			run1.Faults = []proto.Fault{{ExecSeq: -1, Kind: "gen", Gen: w.gens[g].Name, Pkg: m.ImportPath(pb), Nth: 0, Do: "gen-error"}}
+			run2 := *run0
+			run2.Fresh, run2.ReuseExecutor = false, true
+			run2.Sched = drawSched(r)
+			ops = append(ops, Op{Kind: "run", Run: run0}, Op{Kind: "run", Run: &run1}, Op{Kind: "run", Run: &run2})
+			faulty++
 		case r.P(cfg.PReuse):
 			// a tool that loads once and calls Execute twice: after a failure, with fewer generators, or
 			// with a generator that has nothing to say any more
@@ -432,6 +480,20 @@ func DrawHistory(r *Rng, cfg HistConfig) (*Scenario, *histWorld) {
 				}
 			}
 			run2.Gens = gens2
+			if r.P(0.4) {
+				// the other way round: the FIRST call has the silent (or missing) generator, the second one renders again
+				run1.Gens, run2.Gens = gens2, run1.Gens
+				for k := range run1.Faults {
+					// (a fault plan addresses generators by name: keep it on one that is still there)
+					found := false
+					for _, g := range run1.Gens {
+						found = found || g.Name == run1.Faults[k].Gen
+					}
+					if !found && len(run1.Gens) > 1 {
+						run1.Faults[k].Gen = run1.Gens[len(run1.Gens)-1].Name
+					}
+				}
+			}
 			if run2.Args.All {
 				run2.Args.Force = true // (the kept executor compares hashes from before the first call)
 			}
